@@ -22,7 +22,7 @@ RULE = (
     "sub-grid; every batchsize 1..N+1, num_batches 1..N+2 or neither; shuffle "
     "given to the constructor or to the sow call; three grow orders x four "
     "grow entry points x reload patterns; reaped result compared with the "
-    "direct run leaf by leaf.  layer 2: BFS over histories of grow(i) / "
+    "direct run leaf by leaf; plus crops of 101-128 batches.  layer 2: BFS over histories of grow(i) / "
     "Crop.grow(S) / grow_missing / reload on crops of <= 5 batches, reap "
     "compared with the direct run in every complete state.  non-trivial = "
     ">= 2 settings and >= 2 batches (layer 1), distinct states (layer 2)"
@@ -68,6 +68,20 @@ def cases(tier, seed):
                    "swhere": swhere, "sval": sval, "order": order,
                    "via": vias[(j + n) % 4], "reload": (j // 3 + n) % 4,
                    "const": (j + n) % 3 == 0}
+
+
+    # crops with more than 100 batches (three-digit ids)
+    big = [(101, "batchsize", 1), (128, "num_batches", 101),
+           (1010, "batchsize", 10), (204, "batchsize", 2)]
+    for bi, (n, mode, req) in enumerate(big):
+        for ki, kind in enumerate(kinds):
+            if tier == "quick" and (ki + bi) % 2:
+                continue
+            swhere, sval = shuffles[(bi + ki) % len(shuffles)]
+            yield {"n": n, "mode": mode, "req": req, "kind": kind,
+                   "swhere": swhere, "sval": sval,
+                   "order": orders[(bi + ki) % 3], "via": vias[(bi + ki) % 4],
+                   "reload": (bi + ki) % 4, "const": ki % 2 == 0}
 
 
 def worker_init():
